@@ -152,6 +152,6 @@ pub fn step(ex: &mut Exec, st: &mut L1State, op: &str, toks: &[&str]) -> Option<
                 Err(_) => "err".into(),
             })
         }
-        _ => crate::exec_l4::step(ex, st, op, toks),
+        _ => crate::exec_sched::step(ex, st, op, toks),
     }
 }
